@@ -34,6 +34,7 @@ def flag (j : Json) (k : String) : Bool :=
 * `match`   `{v,expr}` → `{"r": "match"|"nomatch"|"M"|"I", "tokens":[..]}`
 * `legal`   `{expr}` → `{"r": "relational"|"plain"|"bad"}` (`Eups.isLegalRelativeVersion`)
 * `list`    `{version, tags:[..], stacks:[[{ver,tags:[..]}..]..]}` → `{"products": [[stack, version]..] | {"err"}, "find": .., "entry": ..}` (`Eups.findProducts`; with `preferred:[..]` also `findProduct(name, version)` for a relational argument and `findProductFromVRO(name, version, vro=[version, versionExpr])`)
+* `repos`   `{repos:[[..]..],pinned?}` → `{"r": [repository, version] | null | {"err"}}` (`distrib.Repositories.findPackage(product, Tag latest)`)
 * `latest`  `{names:[..]}` → `{"idx": n | null}` or `{"err": ..}`
 * `stacks` / `stacksboth` (`{"cache":..,"db":..}`)  `{stacks:[[..]..],expr,minver?,db?}` → `{"latest", "latest_min", "preferred": [stack, version] | null | {"err"},
              "matches": [[stack, version]..] | {"err"}}`; `db`: the database branch (each stack in string order) -/
@@ -94,6 +95,14 @@ def handle : Handler := fun j => do
       | .ok .nothing => Json.arr #[Json.null, Json.null]
       | .ok (.found byExpr i v) => Json.arr #[ref i v, Json.str (if byExpr then "versionExpr" else "explicit")]
     pure (Json.mkObj [("products", products), ("find", find), ("entry", entry)])
+  | "repos" =>
+    let repos ← (← jarr j "repos").mapM fun st => do
+      (← st.getArr?).toList.mapM fun v => do pure (Str.ofString (← v.getStr?))
+    let passes := match j.getObjValAs? Nat "passes" with | .ok n => n | .error _ => 1
+    match (if pinned then latestReposPinned passes repos else latestAcross repos) with
+    | .error er => pure (Json.mkObj [("r", Json.mkObj [("err", er.name)])])
+    | .ok none => pure (Json.mkObj [("r", Json.null)])
+    | .ok (some (i, v)) => pure (Json.mkObj [("r", Json.arr #[Json.num i, ofStr v])])
   | "latest" =>
     let names ← jstrs j "names"
     match latest names with
